@@ -1,7 +1,8 @@
 (* Properties/C03.v — Encoders and decoders are mutually inverse at every layer.
    Only statements, each closed by [exact] of a lemma proved in Proofs/. *)
-From PV Require Import Base.Prelude Base.Slice Model.EncodeBase Model.Encode Model.EncodeCompose Spec.EncodeRef
-     Proofs.Encode Proofs.EncodeIP4 Proofs.EncodeEther Proofs.EncodeMisc Proofs.EncodeCompose.
+From PV Require Import Base.Prelude Base.Slice Model.EncodeBase Model.Encode Model.EncodeCompose Model.EncodeDHCP
+     Spec.EncodeRef Spec.EncodeRefDHCP
+     Proofs.Encode Proofs.EncodeIP4 Proofs.EncodeEther Proofs.EncodeMisc Proofs.EncodeCompose Proofs.EncodeDHCP.
 Open Scope N_scope.
 
 (* EncodeEther: for every buffer of capacity >= 14 (any length, any contents), every
@@ -302,3 +303,58 @@ Print Assumptions C03_class_other.
 Example C03_class_ex : class_of_ports 68 67 = PayloadDHCP4 /\ class_of_ports 50000 53 = PayloadDNS /\ ephemeral 50000.
 Proof. exact class_of_ports_ex. Qed.
 Print Assumptions C03_class_ex.
+
+(* ---------------------------------------------------------------- *)
+(* DHCPv4.  For every buffer of capacity >= 300 that holds the options, every opcode / message
+   type / chaddr / ciaddr / yiaddr / xid / broadcast flag, every option map with distinct keys
+   (codes other than Pad and End, values of at most 255 bytes, encoding within the 1024-byte
+   scratch buffer and the capacity), every requested-parameter order and every iteration order
+   [perm] of the options the order does not name:
+   the message is header ++ options ++ End ++ zero padding with at least 300 bytes; the options
+   are the supplied map plus option 53 = message type, each exactly once; ParseOptions returns
+   that map; the RFC 2132 reference decoder finds exactly these options, the End option and
+   zero padding; the subnet mask precedes the router option (RFC 2132 3.3; DESIGN #18 repaired
+   by repo commit 94e2701).  [dhcp_hdr] is the fixed part as a function of the arguments (and of
+   the bytes EncodeDHCP4 documents to keep when chaddr / xid / ciaddr / yiaddr are nil). *)
+Theorem C03_dhcp4_rt : forall b opcode mt chaddr ci yi xid bc options order perm,
+  (300 <= cap b)%nat ->
+  match chaddr with Some m => length m = 6%nat | None => True end ->
+  match xid with Some x => length x = 4%nat | None => True end ->
+  let o' := set_opt 53 [mt] options in
+  nodup options -> opts_ok o' -> (osize o' <= SCRATCH)%nat -> (241 + osize o' <= cap b)%nat ->
+  let em := emission o' order perm in
+  let L := Nat.max (241 + osize o') 300 in
+  let pad := repeat 0 (300 - (241 + osize em)) in
+  exists p,
+    encode_dhcp4 b opcode mt chaddr ci yi xid bc options order perm = Ok p /\
+    (300 <= len p)%nat /\ len p = L /\ cap p = cap b /\ skipn L (arr p) = skipn L (arr b) /\
+    view p = dhcp_hdr (arr b) opcode chaddr ci yi xid bc ++ enc em ++ 255 :: pad /\
+    dhcp_options p = enc em ++ 255 :: pad /\
+    nodup em /\ (forall k, lookup_opt k em = lookup_opt k o') /\
+    (forall k, lookup_opt k (dhcp_parse_options p) = lookup_opt k o') /\
+    ref_dhcp_opts (S (length (dhcp_options p))) (dhcp_options p) = Some em /\
+    after_end (S (length (dhcp_options p))) (dhcp_options p) = Some pad /\
+    mask_before_router em = true.
+Proof. exact dhcp4_rt. Qed.
+Print Assumptions C03_dhcp4_rt.
+
+Example C03_dhcp4_rt_ex :
+  let b := mkSlice (repeat 7 400) 0 in
+  let options := [(1, [255;255;255;0]); (3, [192;168;0;1]); (6, [8;8;8;8]); (12, [104;105])] in
+  exists p, encode_dhcp4 b 2 5 None [] [192;168;0;9] None false options [6; 3; 1] [12; 53] = Ok p /\
+            len p = 300%nat /\
+            map fst (emission (set_opt 53 [5] options) [6; 3; 1] [12; 53]) = [6; 1; 3; 12; 53].
+Proof. exact dhcp4_rt_ex. Qed.
+Print Assumptions C03_dhcp4_rt_ex.
+
+(* the option area alone, for any bytes [z] after the End option *)
+Theorem C03_dhcp4_options_rt : forall o order perm z,
+  nodup o -> opts_ok o -> (osize o <= SCRATCH)%nat ->
+  let em := emission o order perm in
+  let area := enc em ++ 255 :: z in
+  append_options_bytes o order perm = Ok (enc em) /\
+  nodup em /\ osize em = osize o /\ (forall k, lookup_opt k em = lookup_opt k o) /\
+  (forall k, lookup_opt k (parse_options (S (length area)) area []) = lookup_opt k o) /\
+  ref_dhcp_opts (S (length area)) area = Some em /\ after_end (S (length area)) area = Some z.
+Proof. exact dhcp_options_rt. Qed.
+Print Assumptions C03_dhcp4_options_rt.
